@@ -554,6 +554,12 @@ func TestVerifC11Lifecycle(t *testing.T) {
 					res.Evaluations++
 					res.Traces++
 					if r.viol != "" {
+						// (real-time deadlines inside the stores: a violation must reproduce twice more, see C10)
+						if r2, r3 := c11Exec(cfg, nh), c11Exec(cfg, nh); r2.viol != r.viol || r3.viol != r.viol {
+							res.Exhaustive = false
+							res.Extra["unreproduced"] = fmt.Sprintf("cfg %+v history %v: %.200s", cfg, nh, r.viol)
+							continue
+						}
 						kind := strings.SplitN(r.viol, ":", 2)[0]
 						fault := ""
 						if op.Fault > 0 {
